@@ -113,6 +113,9 @@ class AsyncRun:
         self.pool_closed = False
         self.decisions = []
         self.body = {}
+        self.did_cancel = False
+        self.cancelled = set()
+        self.allow_native = True
 
     # -- identity helpers ---------------------------------------------------
     def _task_name(self):
@@ -187,12 +190,12 @@ class AsyncRun:
                     "owner": self.cid(r.owner) if r.owner is not None else 0,
                     "to": r.endpoint,
                     "tls": len(r.tls),
-                    "unread": len(r.inbuf),
-                    "eof": r.eof,
                 }
             )
+        timers = sorted(h._when for h in self.loop._scheduled if not h._cancelled and h._when > self.loop.vt)
         return {
             "clock": self.loop.vt,
+            "timers": timers,
             "pool": conns,
             "evicted": others,
             "reqs": reqs,
@@ -308,7 +311,8 @@ class AsyncRun:
             out["msg"] = str(e)[:200]
             out["tb"] = traceback.format_exc()[-1500:]
         finally:
-            self.phase[name] = "ended"
+            if self.record:
+                self.phase[name] = "ended"
             self.event("Return", r=name, out=out["result"], exc=out.get("exc", ""))
 
     def start(self, name):
@@ -334,6 +338,15 @@ class AsyncRun:
             en.append(("tick", t))
         return en
 
+    def idle_streams(self):
+        """Open streams whose owning connection currently reports idle."""
+        out = []
+        idle = {id(c) for c in self.pool.connections if c.is_idle()}
+        for r in self.net.streams:
+            if r.open and not r.eof and r.owner is not None and id(r.owner) in idle:
+                out.append(r.sid)
+        return out
+
     def live(self):
         return [n for n, t in self.tasks.items() if not t.done()]
 
@@ -346,6 +359,8 @@ class AsyncRun:
             op = self.net.ops[st[1]]
             fault = st[2] if len(st) > 2 else None
             nbytes = st[3] if len(st) > 3 else None
+            if fault:
+                self.event("Fault", r=op.task, op=op.seq, kind=op.kind, fault=fault)
             out = self.net.resolve(op, fault=fault, nbytes=nbytes)
             if not op.fut.done():
                 if out[0] == "ok":
@@ -361,9 +376,15 @@ class AsyncRun:
         elif kind == "tick":
             self.loop.advance_to(st[1])
             self.snapshot("Tick", t=st[1])
-        elif kind == "cancel":
+        elif kind in ("cancel", "cancel_if_live"):
             name, style = st[1], st[2]
-            self.event("Cancel", r=name, style=style, where=self.where(name))
+            t = self.tasks.get(name)
+            if kind == "cancel_if_live" and (t is None or t.done() or name not in self.scopes or name in self.cancelled):
+                self.decisions.pop()
+                return
+            self.did_cancel = True
+            self.cancelled.add(name)
+            self.event("Cancel", r=name, style=style, where=self.where(name), shielded=self.shielded(name), blocked=self.blocked_on(name))
             if style == "native":
                 self.tasks[name].cancel()
             else:
@@ -383,20 +404,54 @@ class AsyncRun:
         self.pool_closed = True
         self.event("PoolCloseEnd")
 
+    def shielded(self, name):
+        """Is the caller currently inside an anyio shielded cancel scope?"""
+        t = self.tasks.get(name)
+        try:
+            from anyio._backends._asyncio import _task_states
+
+            sc = _task_states[t].cancel_scope
+            while sc is not None:
+                if sc.shield:
+                    return True
+                sc = sc._parent_scope
+        except Exception:
+            pass
+        return False
+
+    def blocked_on(self, name):
+        """What the caller is suspended on: a pending network op kind, or 'sync' (lock, event,
+        semaphore, plain yield)."""
+        for op in self.net.pending:
+            if op.task == name and op.fut is not None and not op.fut.done():
+                return op.kind
+        if name in self.waiting_gate:
+            return "gate"
+        return "sync"
+
     def where(self, name):
-        """Innermost httpcore frame + what is awaited there (diagnostics only)."""
+        """Innermost httpcore frame of the caller's await chain (diagnostics only)."""
         t = self.tasks.get(name)
         if t is None or t.done():
             return ""
-        try:
-            frames = t.get_stack()
-        except Exception:
-            return ""
         best = ""
-        for f in frames:
-            fn = f.f_code.co_filename
-            if "/httpcore/" in fn:
-                best = fn.split("/httpcore/")[-1] + ":" + f.f_code.co_name
+        co = t.get_coro()
+        for _ in range(200):
+            if co is None:
+                break
+            fr = getattr(co, "cr_frame", None) or getattr(co, "ag_frame", None) or getattr(co, "gi_frame", None)
+            if fr is not None:
+                fn = fr.f_code.co_filename
+                if "/httpcore/" in fn:
+                    best = fn.split("/httpcore/")[-1] + ":" + fr.f_code.co_name
+                elif "/anyio/" in fn and best and "|" not in best:
+                    best += "|" + fr.f_code.co_name
+            nxt = getattr(co, "cr_await", None)
+            if nxt is None:
+                nxt = getattr(co, "ag_await", None)
+            if nxt is None:
+                nxt = getattr(co, "gi_yieldfrom", None)
+            co = nxt
         return best
 
     # -- running ------------------------------------------------------------
@@ -410,13 +465,14 @@ class AsyncRun:
             if pre:
                 for st in pre:
                     self.apply(st)
+            n_ev = len(self.events)
             t = self.loop.step()
             if t is False:
                 return
             name = t.get_name() if t is not None else "-"
             if self.record:
                 obs = self.observe()
-                if obs != self.last_obs:
+                if obs != self.last_obs or len(self.events) != n_ev:
                     self.events.append({"ev": "Step", "task": name, "obs": obs})
                     self.last_obs = obs
 
@@ -443,6 +499,8 @@ class AsyncRun:
 
     def finish(self):
         """Cancel whatever is still alive and dispose of the loop."""
+        self.record = False
+        self.final_outcome = {n: dict(o) for n, o in self.outcome.items()}
         for t in self.tasks.values():
             if not t.done():
                 t.cancel()
